@@ -1,0 +1,33 @@
+//go:build verif
+
+// Verification contracts (comments only; compiled only with -tags verif).
+// Checked by /verif/bin/govc; see /verif/DESIGN.md.
+
+package first
+
+//@ type Service
+//@   valid self.clientMonitor != nil && self.proposalProviders != nil
+//@   valid forall n string :: in(self.proposalProviders, n) ==> self.proposalProviders[n] != nil
+//@
+//@ // ---- C20: the goroutines a request starts all end, whether or not anybody still listens ----
+//@
+//@ // a node's goroutine sends at most one result, on the channel it is handed
+//@ func (*Service).Proposal$1
+//@   thread
+//@   requires s != nil && opts != nil && provider != nil && !closed(ch)
+//@   // go-eth2-client returns a response with every nil error
+//@   assumes call Proposal#1 (r, err): err == nil ==> r != nil
+//@   exit sends() <= 1
+//@
+//@ func (*Service).Proposal
+//@   requires s != nil && opts != nil
+//@   // slots handed to the strategy are duty slots
+//@   requires opts.Slot <= 9223372036854775807
+//@   // nstarted: the number of goroutines started so far. A goroutine is only started while the result channel it is
+//@   // handed still has room for one more result than there are goroutines already: as each goroutine sends at most
+//@   // once, no send can block, even when the requester has taken the first result (or timed out) and gone
+//@   ghost nstarted Int = 0
+//@   at call go#1: assert nstarted < chancap(arg3)
+//@   at call go#1: ghost nstarted = nstarted + 1
+//@   loop 1
+//@     invariant nstarted == nvisited()
